@@ -1089,6 +1089,7 @@ func (x *Exec) opSend(st *Step) {
 		x.St.inc("send-unauthorised")
 		x.St.inc("send-drop:" + x.dropReason(a, pa))
 	}
+	x.w.splitNext = st.Split
 	x.w.send(c, raw)
 	x.settle()
 	x.checkWire(x.observe(), nil, emits, nil, fmt.Sprintf("Send indication (%d bytes) from client %d to %v", len(payload), c.Idx, pa))
@@ -1159,6 +1160,7 @@ func (x *Exec) opChannelData(st *Step) {
 			}
 		}
 	}
+	x.w.splitNext = st.Split
 	x.w.send(c, frame)
 	x.settle()
 	x.checkWire(x.observe(), nil, emits, nil, fmt.Sprintf("ChannelData %#x (%d bytes) from client %d", num, len(payload), c.Idx))
